@@ -381,14 +381,7 @@ LITERALS_ARRAY = [(0, 0, 0), (1, 1, 1), (0, 1, 2), (3, 4, 5), (6, 7, 8), (9, 12,
 
 
 def _run_concrete(I, fn, xs):
-    ps = I.explore(lambda: I.call(fn, [e2.SI(I.val(x)) for x in xs]))
-    if len(ps) != 1:
-        return ("paths", len(ps))
-    p = ps[0]
-    if p.dead:
-        return ("raised", p.raises[-1][1] if p.raises else "?")
-    v = I.concretize(p.result)
-    return ("value", v)
+    return I.run_concrete(fn, (), xs)
 
 
 def _run_native(fn, xs):
